@@ -382,6 +382,9 @@ def run_check(pid, tier, seed_value, replay=None):
     from concurrent.futures import ProcessPoolExecutor
 
     plan = mod.plan(tier)  # list of (part name, nshards)
+    if os.environ.get("VPBT_ONLY_PARTS"):
+        # exploration aid (never used by a registered command): run a subset of the parts; floors will usually not be met
+        plan = [(p_, n_) for p_, n_ in plan if p_ in os.environ["VPBT_ONLY_PARTS"].split(",")]
     tasks = []
     for part, nshards in plan:
         for sh in range(nshards):
